@@ -104,7 +104,41 @@ type outcome struct {
 
 var wantSample bool
 
+// evaluate judges one case.  A History case is a sequence of REQUESTS in one process — the text, the same text again,
+// a different query sharing its prefix, the text a third time — each through the real logql_parser.Parse + Plan like
+// the service does per request; every answer must equal the reference (so the later ones equal the first).
 func evaluate(spec caseSpec, verbose bool) (out outcome) {
+	if !spec.History {
+		return evalOnce(spec, verbose, false)
+	}
+	first := evalOnce(spec, verbose, true)
+	if len(first.class) > 0 || first.harness != "" || first.planErr != "" || first.unsupp != "" {
+		return first
+	}
+	for i, step := range []string{"second", "third (after a sibling query)"} {
+		if i == 1 && spec.Sibling != "" {
+			if d := dbIndex[spec.DB]; d != nil {
+				sib := runImpl(spec.Sibling, spec.Params, d.chdb(), spec.Cluster, true)
+				first.stmts += len(sib.sql)
+			}
+		}
+		o := evalOnce(spec, verbose, true)
+		first.stmts += o.stmts
+		if o.harness != "" || o.unsupp != "" {
+			return o
+		}
+		if len(o.class) > 0 || o.planErr != "" {
+			first.class = []string{"repeated_request_differs_from_first:" + spec.Query.Shape()}
+			first.outcome = "repeated_request_differs"
+			first.what = fmt.Sprintf("the first request for %s agrees with the reference, the %s request for the same text in the same process does not: %s%s",
+				spec.Text, step, o.what, o.planErr)
+			return first
+		}
+	}
+	return first
+}
+
+func evalOnce(spec caseSpec, verbose bool, fresh bool) (out outcome) {
 	d := dbIndex[spec.DB]
 	if d == nil {
 		out.harness = "unknown database " + spec.DB
@@ -118,7 +152,7 @@ func evaluate(spec caseSpec, verbose bool) (out outcome) {
 	} else {
 		time.Local = time.FixedZone(fmt.Sprintf("UTC%+d:%02d", spec.ZoneOffS/3600, (abs(spec.ZoneOffS)%3600)/60), spec.ZoneOffS)
 	}
-	impl := runImpl(spec.Text, spec.Params, d.chdb(), spec.Cluster)
+	impl := runImpl(spec.Text, spec.Params, d.chdb(), spec.Cluster, fresh)
 	out.stmts = len(impl.sql)
 	if verbose {
 		fmt.Println("LogQL:   ", spec.Text)
@@ -290,6 +324,7 @@ type summary struct {
 	HarnessMsg  string               `json:"harness_first"`
 	Layers      map[string]int       `json:"layers"`
 	Samples     []map[string]any     `json:"samples"`
+	CacheMut    int64                `json:"cache_mutations"`
 	NextIdx     int                  `json:"next_idx"` // first case index of this shard NOT evaluated (deadline), -1 = shard finished
 }
 
@@ -405,6 +440,7 @@ func workerMain(thorough bool, shard, of, from int, deadline int64, journal stri
 		binary.LittleEndian.PutUint64(buf[8:16], 0)
 		jf.WriteAt(buf[:], 0)
 	}
+	sum.CacheMut = cacheMutations.Load()
 	w := bufio.NewWriter(os.Stdout)
 	b, _ := json.Marshal(sum)
 	w.WriteString("C08SUMMARY ")
@@ -513,7 +549,7 @@ func main() {
 		evaluate(g.cases[0], false)
 		return
 	}
-	r.Rule = "eight layers, each a full product consumed to the end: L1 {rate, count_over_time, bytes_rate, bytes_over_time} x pipelines {none, line filter |= != |~, label filter = != >} and " +
+	r.Rule = "nine layers, each a full product consumed to the end: L1 {rate, count_over_time, bytes_rate, bytes_over_time} x pipelines {none, line filter |= != |~, label filter = != >} and " +
 		"{rate, sum/avg/min/max/first/last_over_time} on `| json v=\"v\" | unwrap v` x {none, line filter, label filter before json, numeric label filter on the extracted label} x range {5s,10s,15s,1m} x (from,to) on/off bucket boundaries x step {range/2, range, 2*range} " +
 		"x every sub-database of <=3 (thorough <=4) entries of a 9-entry pool (entry just before the window, on a bucket boundary, inside, last ns of a bucket, in later buckets; two streams; plus a metric-type sample and a non-selected stream in every database); " +
 		"L2 {sum,min,max,avg,count} x {no grouping, by/without in prefix and suffix position} x inner range aggregations x steps x every sub-database of <=3 (4) entries of a 9-entry pool of three streams sharing / not sharing a and b; " +
@@ -521,6 +557,7 @@ func main() {
 		"L6 compositions: comparison over topk/bottomk (k 1..2) over {count, rate, unwrapped sum, vector aggregation}, top/bottom-k over (vector aggregation over comparison), comparison at range level and at vector level in one query, all three positions at once, x 6 operators x thresholds straddled by the values, at 5 s (samples path) and 15 s (metrics_15s shortcut), on all 63 distributions of 0..3 entries per stream (three series with pairwise distinct values); " +
 		"L7 grouping compositions: (clause on the unwrapped range function) x (clause on the vector aggregation) over {none, by(L), without(L)}, L in {a},{a,b},{b} (subset, superset, disjoint, equal), prefix and suffix position, x {sum,max,count}, on every sub-database of <=3 (4) entries of four streams (two differing only in b, one in a, one without b) x two buckets; " +
 		"L8 environment: reader process time zone (time.Local in UTC, UTC+9, UTC+14, UTC-5, UTC+5:45) x 120 s windows starting 60 s before / after UTC midnight and the zone's local midnight and 60 s before / after those instants + 30 min, x query families (plain range aggregation, shortcut + by, rate + by, topk over sum without, unwrapped sum; thorough 19 shapes) x databases whose time_series rows carry the UTC day of their samples (single entries and the whole 6-entry pool; thorough pairs too); " +
+		"L9 history independence: every case is a sequence of four REQUESTS in one process through the real logql_parser.Parse + Plan with no cache of the harness (the text, the same text, a sibling query sharing its prefix, the text again), each judged against the reference; metric queries with a stage evaluated in Go (json without parameters, logfmt, line_format) AFTER a line filter / label filter, and pure-SQL shapes; " +
 		"L5 ungrouped unwrap, missing / non-numeric / zero / negative unwrapped values, equal timestamps, empty line filters, quantile_over_time, thresholds with > 6 decimals, cluster mode, ranges 20s/30s, further matchers. " +
 		"A case is distinct by (query text, database, from, to, step, cluster, zone) - asserted unique at generation; non-trivial = the reference result is non-empty"
 	r.Assumptions = []string{
@@ -698,6 +735,7 @@ func main() {
 			all.NonEmpty += s.NonEmpty
 			all.ChsimUnsupp += s.ChsimUnsupp
 			all.Harness += s.Harness
+			all.CacheMut += s.CacheMut
 			if all.ChsimFirst == "" {
 				all.ChsimFirst = s.ChsimFirst
 			}
@@ -764,6 +802,7 @@ func main() {
 	r.Extra["cases_through_15s_shortcut"] = all.Shortcut
 	r.Extra["sql_statements_executed_by_chsim"] = all.Statements
 	r.Extra["chsim_unsupported"] = all.ChsimUnsupp
+	r.Extra["harness_parse_cache_entries_edited_by_planning"] = all.CacheMut
 	r.Extra["outcome_counts"] = all.Outcomes
 	r.Extra["workers"] = workers
 	cc := map[string]int{}
@@ -854,7 +893,7 @@ func probe(args []string) {
 		{0, 31 * sec, `{"v":5,"m":"k"}`},
 	}}
 	for _, q := range fs.Args() {
-		r := runImpl(q, Params{*from, *to, *step}, d.chdb(), *cluster)
+		r := runImpl(q, Params{*from, *to, *step}, d.chdb(), *cluster, true)
 		fmt.Println("QUERY", q)
 		if *showSQL {
 			for _, s := range r.sql {
